@@ -117,7 +117,7 @@ def run(ctx: core.Ctx) -> None:
     ctx.model_check("Reservoir", "MC_Reservoir_ideal.cfg", workers=4)
     ctx.model_check("Scheme", "MC_Scheme_ideal3.cfg", workers=8)
     ctx.model_check("Scheme", "MC_Scheme_relax_single.cfg", workers=4)
-    variants = [0, 1] if ctx.quick else [0, 1, 2, 3]
+    variants = [0, 2, 3] if ctx.quick else [0, 1, 2, 3, 6]   # 2, 6: float32 time grids; 3: int64
     depth = 3 if ctx.quick else 4
     behs = c10.export_behaviours(ctx, "single", depth)
     c10.replay_histories(ctx, "single", behs, variants, clauses=None, keep=keep_c17)
